@@ -40,6 +40,11 @@ CHECKS = {
    "All catalogs with 0..3/2/2/1 (thorough 0..4/3/4/3) chunks at L0 hour A / L0 hour B / L1 / L2 x merge threshold {2,3} x level target size {1 B, ~2 chunks, ~100 chunks} x max_levels {2,4} x both back ends: a fixed point is reached within 8 cycles, candidate groups offered before each cycle are pairwise disjoint and level-homogeneous, groups actually merged (leases) are disjoint and of the lease's level, every level equals max(replaced)+1 or stays, rows conserved.",
    "one compactor, fault-free, frozen clock; in-memory levels tracked from observed merges",
    "DESIGN.md section 5 C20"),
+ "C09": (ENGINE_B, "model_checking",
+   "explicit-state search over histories of the real Compactor (cycle / clock / pin / unpin / restart) with every physical DELETE and retention removal judged against catalog history, grace, pins and cut-off; plus stateless model checking of all schedules of a GC pass against a pinning query",
+   "(a) all histories up to depth 4 (quick) / 6 (thorough) over {compaction cycle, clock +100 s/+301 s/+1 day, pin(2 sets), unpin, restart via Compactor::run} on both catalog back ends with grace 0/300 s and retention 1 day over a dataset with chunks inside the window, older than, straddling the cut-off and with negative timestamps; from every state the persisted pending deletions must be carried out after clock-past-grace + restart. (b) every schedule within 2 (3) preemptions of run_compaction_cycle vs QueryNode::query sharing a ChunkPinRegistry, catalog calls and store requests as scheduling points, grace 0/30/300 s: no DELETE is sent while the chunk is pinned.",
+   "wall and monotonic clocks advance together; the harness is the only other source of catalog changes; quick tier does not make the query's chunk-data reads scheduling points",
+   "DESIGN.md section 5 C09"),
  "C13": (ENGINE_A, "model_checking",
    "stateless model checking of the real code: exhaustive DFS over all interleavings of 2-3 nodes' shard-metadata updates/creations at object-store-request granularity with state caching; plus exhaustive update histories of the router cache",
    "Every interleaving of 1-2 update_shard_metadata calls per node (expected generation equal, stale, ahead; shard absent or at generation 2) on the object-store client (request granularity) and the in-memory client (call granularity); oracle: one winner per base generation, generations form the chain g0+1.., every version ever written carries the next generation, stored content belongs to the last winner; ShardRouter: all update sequences up to depth 5/7 never lower the cached generation.",
